@@ -76,6 +76,10 @@ static void run_case_body(std::ostream& os, uint64_t s0, long long id, const std
       first = false;
       ExecRes z = run_exec(ES, none, EC, 0, fr, pc, rs, nullptr); ++nexec;
       exec_ev(0, fr, pc, rs, 0, z.ok, reg.get(z.closed));
+      { // NoClip as the FIRST Execute of a clipper fed through a ReuseableDataContainer64
+        ReuseableDataContainer64 rd; rd.AddPaths(ES, PathType::Subject, false); rd.AddPaths(EC, PathType::Clip, false);
+        Clipper64 c2; c2.AddReuseableData(rd); Paths64 s2; bool ok2 = c2.Execute(ClipType::NoClip, (FillRule)fr, s2); ++nexec;
+        exec_ev(0, fr, 1, 0, 0, ok2, reg.get(s2)); }
     }
   }
   if (batch) os << Ev("Execs").kv("x", jarr(xs.begin(), xs.end(), [](const std::string& t) { return t; })).str() << "\n";
